@@ -130,6 +130,9 @@ func cmdManip(args []string) {
 			wd := g.width()
 			sep := g.pick(seps)
 			hd, bd := g.chance(0.5), g.chance(0.5)
+			if g.chance(0.4) {
+				wd = g.tableMinWidth(data, bd) + g.r.Intn(8) - 2
+			}
 			cs := g.pick([]string{"", "+|-", "*", "ab", "#=~!", "╔║═", "é|-"})
 			fmt.Fprintf(w, "%s MT %s %d %s %s %s %s => %s\n", id, matTok(data), wd, bstr(sep), b01(hd), b01(bd), bstr(cs),
 				guarded(func() string { return listTok(rosed.VerifMakeTable(data, wd, sep, hd, bd, cs)) }))
